@@ -24,7 +24,7 @@ RULE = ('process programs (sync/async steps, waits with resume values, continuat
         '(program, inputs, crash set, transport); non-trivial when >=1 restore happened')
 ASSUMPTIONS = ['steps depend only on persisted state by construction (trace and scripts live in persisted members / ctx / inputs)',
                'WorkChains waiting on futures are not checkpoint points (they cannot be saved)']
-REQUIRED = ['restores', 'kinds/process', 'kinds/outline', 'transport/pickle', 'crash_in_wait', 'multi_restore', 'traces_compared', 'ctx_compared',
+REQUIRED = ['paused_hook_checkpoints', 'restores', 'kinds/process', 'kinds/outline', 'transport/pickle', 'crash_in_wait', 'multi_restore', 'traces_compared', 'ctx_compared',
             'inputs/none', 'inputs/empty', 'inputs/given', 'outline_nodes/if', 'outline_nodes/while', 'elif_or_else_body_crash', 'lost_work_restores', 'transport/mem-live', 'transport/pkfile-live', 'transport/bundle-live', 'codec_processes', 'midstep_saves', 'loaded_with_other_loop_current']
 BOUNDS = {'quick': 'basic family + 12 random programs, 60 outlines, crash subsets <=2', 'thorough': '+150 random programs, 800 outlines, subsets <=3, persister/YAML transports'}
 
@@ -71,6 +71,11 @@ def gen_cases(tier, seed):
                 for cs in rng.sample(sets, min(len(sets), 6 if tier == 'quick' else 20)):
                     yield {'kind': 'process', 'name': name, 'program': prog, 'inputs': inputs, 'ctx': ctxprog, 'crash': cs,
                            'transport': rng.choice(['mem-live', 'pkfile-live', 'bundle-live']), 'lag': rng.randint(0, 3)}
+                # "persist when paused": a pause requested from inside step k, the checkpoint written from the paused hook (after the
+                # step has returned and the next state was entered), the instance abandoned there; the restored process is played
+                for k in rng.sample(range(len(prog['steps'])), min(len(prog['steps']), 3 if tier == 'quick' else 6)):
+                    yield {'kind': 'process', 'name': name, 'program': prog, 'inputs': inputs, 'ctx': ctxprog, 'crash': [], 'paused_crash': k,
+                           'transport': rng.choice(transports)}
     nout = 60 if tier == 'quick' else 800
     for i in range(nout):
         ast = outlines.random_ast(rng, rng.randint(1, 3), max_body=4)
@@ -89,6 +94,9 @@ def gen_cases(tier, seed):
         for cs in rng.sample(sets, min(len(sets), 6 if tier == 'quick' else 12)):
             yield {'kind': 'outline', 'ast': ast, 'preds': preds, 'rets': rets, 'emit': i % 2 == 0, 'crash': cs,
                    'transport': rng.choice(['mem-live', 'pkfile-live', 'bundle-live']), 'lag': rng.randint(0, 3)}
+        for k in rng.sample(range(nb - 1), min(nb - 1, 3 if tier == 'quick' else 6)):
+            yield {'kind': 'outline', 'ast': ast, 'preds': preds, 'rets': rets, 'emit': i % 2 == 0, 'crash': [], 'paused_crash': k,
+                   'transport': rng.choice(transports)}
 
 
 def _transport(kind, workdir):
@@ -182,7 +190,9 @@ def run_case(case):
             obs['lost_work_restores'] = int(case['lag'] > 0 and r.get('restores', 0) > 0)
         else:
             r = persist.run_with_crashes(make, case['crash'], resume, transport=_transport(case['transport'], workdir),
-                                         other_loop_current=bool(case.get('other_loop_current')))
+                                         other_loop_current=bool(case.get('other_loop_current')),
+                                         paused_crashes=() if case.get('paused_crash') is None else (case['paused_crash'],))
+            obs['paused_hook_checkpoints'] = sum(1 for e in r.get('log', ()) if e[0] == 'checkpoint-in-paused-hook')
             obs['loaded_with_other_loop_current'] = int(bool(case.get('other_loop_current')) and r.get('restores', 0) > 0)
     finally:
         shutil.rmtree(workdir, ignore_errors=True)
